@@ -348,7 +348,7 @@ Proof.
       change (0 <? 1) with true. change (1 =? usize_max) with false. cbv iota. cbn [andb negb].
       apply andb_true_intro. split; apply N.leb_le; assumption.
     + destruct (Hone T) as [s ->]. destruct (f_ty f); reflexivity.
-  - exists (vp_of false (f_t f)). split.
+  - exists (vp_of false (f_icase f) (f_t f)). split.
     + rewrite bf_vp_eq. unfold field_vp. rewrite A. destruct (f_ty f); try reflexivity; contradiction Hnu; reflexivity.
     + apply Forall_forall. intros s Hs.
       assert (Hact : field_action f = ASet \/ field_action f = AAppend) by (rewrite A; destruct (f_ty f); auto).
@@ -478,10 +478,9 @@ Proof.
       inversion Ee; subst st2. destruct (add_defaults_frame c st1 st P1 Ed) as (_ & _ & _ & Dk & _).
       rewrite (Dk _ _ Ge). cbn [opt_map] in Gf |- *. inversion Gf as [Er]. rewrite Er.
       unfold raw_of. rewrite (pos_field_action f Hpff). destruct (f_ty f); reflexivity. }
-  (* extraction and the enum check *)
-  try rewrite Ea. apply (proj2 (parse_factor d (bin :: argv) vs)). exists (into_inner (mt st)). split; [exact Hparse|]. split.
-  - apply (enum_ok_fields (d_nodes d) vs p _ Hfo Hok P Hag).
-  - unfold extract. destruct (extract_fields (d_nodes d) vs p _ Hfo Hnd Hok P Hag) as [m' Ex]. rewrite Ex. reflexivity.
+  (* extraction *)
+  try rewrite Ea. apply (proj2 (parse_factor d (bin :: argv) vs)). exists (into_inner (mt st)). split; [exact Hparse|].
+  unfold extract. destruct (extract_fields (d_nodes d) vs p _ Hfo Hnd Hok P Hag) as [m' Ex]. rewrite Ex. reflexivity.
 Qed.
 
 (** the "[Vec<T>] is the last field" condition as a boolean *)
